@@ -4,7 +4,7 @@ Line-protocol driver for the engine model (C01, C03, C06, C07, C08).
   node K KIND DFLT EXPR   → "ok"
   session W…              → "Fresh Updated … |[ execs…| X]"
   round K…                → "v1 v2 … |[ execs…| X]"
-Arguments: toggle names (f1 f3 f14 f31 f32) switch the model from as-is to repaired behaviour;
+Arguments: toggle names (f1 f3 f14 f31 f32 f1p f1q f1r) switch the model from as-is to repaired behaviour;
 `nof2` / `nof16` / `nof33` switch it back to the code before the fixes of F2 / F16 / F33 (historical); `desc` / `tape=1,0,2` choose the order of the two hash-set walks (Toggles.desc, .tape);
 `msg` appends the model's error message to crash lines;
 `core` runs the extended core model (QbiceVerif.Model.EngineCore, namespace `Qbice.CoreFw`: the
@@ -301,5 +301,5 @@ def main (args : List String) : IO Unit := do
   let tape : List Nat := match args.find? (·.startsWith "tape=") with
     | some a => ((a.drop 5).toString.splitOn ",").filterMap String.toNat?
     | none => []
-  let t : Toggles := { tape := tape, f1 := args.contains "f1", f2 := !args.contains "nof2", f3 := args.contains "f3", f14 := args.contains "f14", f1p := args.contains "f1p", f1q := args.contains "f1q", f16 := !args.contains "nof16", f33 := !args.contains "nof33", f31 := args.contains "f31", f32 := args.contains "f32", desc := args.contains "desc" }
+  let t : Toggles := { tape := tape, f1 := args.contains "f1", f2 := !args.contains "nof2", f3 := args.contains "f3", f14 := !args.contains "nof14", f1p := !args.contains "nof1p", f1q := !args.contains "nof1q", f1r := !args.contains "nof1r", f16 := !args.contains "nof16", f33 := !args.contains "nof33", f31 := args.contains "f31", f32 := args.contains "f32", desc := args.contains "desc" }
   loop (← IO.getStdin) (← IO.getStdout) (args.contains "core" || args.contains "corefull") (args.contains "corefull") (args.contains "cyc") (args.contains "msg") t {}
